@@ -4,6 +4,7 @@ from __future__ import annotations
 import ast
 
 from ..absint import NONE, const, is_const, fmt, HList, mk_cmp, mk_cond
+from ..names import N
 from ..common import Report, AnalysisError, read_text
 from ..facts import facts
 from .. import nf, regexnf
@@ -26,15 +27,40 @@ def _consts():
     return out
 
 
+WANT_PREFIX = {"header": (r"^(#{1,6}\s)", "a header prefix is one to six '#' and exactly one blank, captured as group 1, at the start of the line"),
+               "bullet": (r"^(\s*[*+-]\s*)", "a bullet prefix is optional blanks, one of * + -, optional blanks, captured as group 1, at the start of the line")}
+
+
+def _split_skeleton(sk):
+    """(prefix, rest) of a pattern skeleton ``prefix(§|§)rest`` (§ = an escaped keyword alternation), else (None, None)."""
+    if not isinstance(sk, str) or sk.count("(§|§)") != 1:
+        return None, None
+    pre, _, rest = sk.partition("(§|§)")
+    return pre, rest
+
+
 def rule_prefix(rep: Report, rid="C19.prefix") -> None:
+    """The prefix each title / step pattern really starts with (whatever constant or table it is kept in)."""
     rep.used_file(MDFILE)
     rep.used_file("MARKDOWN_WITH_GHERKIN.md")
-    c = _consts()
-    for name, want, what in (("KEYWORD_PREFIX_HEADER", r"^(#{1,6}\s)", "a header prefix is one to six '#' and exactly one blank, captured as group 1, at the start of the line"),
-                             ("KEYWORD_PREFIX_BULLET", r"^(\s*[*+-]\s*)", "a bullet prefix is optional blanks, one of * + -, optional blanks, captured as group 1, at the start of the line")):
-        pat = c.get(name)
-        rep.ob(rid, what, pat is not None and regexnf.same(pat, 0, want), file=MDFILE, function="gherkin.token_matcher_markdown",
-               expected=regexnf.describe(want), found=regexnf.describe(pat) if pat is not None else f"{name} is not a string constant")
+    M = mr.mnf(MDQ)
+    seen = {"header": [], "bullet": []}
+    for kind in list(dict(mr.TITLE_ROLES)) + ["StepLine"]:
+        m = M.methods[kind]
+        for sn, ctx in m.sinks:
+            if sn[1].get("matched_type") != const(kind) or sn[1].get("keyword") is None:
+                continue
+            gs = [(c, p) for c, p in nf.guards_in_ctx(ctx) if c[0] == "call" and c[1] == "re.search" and p]
+            if len(gs) != 1:
+                continue
+            ok, sk = _pattern_safe(m.I, gs[0][0][2][0], m.tree)
+            pre, _rest = _split_skeleton(sk)
+            seen["bullet" if kind == "StepLine" else "header"].append((kind, pre))
+    for which, (want, what) in WANT_PREFIX.items():
+        found = seen[which]
+        rep.ob(rid, what, bool(found) and all(pre is not None and regexnf.same(pre, 0, want) for _, pre in found), file=MDFILE,
+               function="gherkin.token_matcher_markdown", expected=regexnf.describe(want),
+               found=sorted({regexnf.describe(pre) if pre is not None else f"match_{k}: no prefix found" for k, pre in found}) or "no keyword pattern found")
 
 
 def rule_titles(rep: Report, rid="C19.escape", rid_col="C19.col", rid_roles="C19.roles") -> None:
@@ -65,9 +91,11 @@ def rule_titles(rep: Report, rid="C19.escape", rid_col="C19.col", rid_roles="C19
             mt = gs[0][0]
             pat, subj = mt[2][0], mt[2][1]
             ok, sk = _pattern_safe(I, pat, m.tree)
-            want_sk = cst.get(prefix_name, "?") + "(§|§)" + suffix + "(.*)"
-            rep.ob(rid, f"match_{kind}: pattern = prefix + (escaped keyword alternation) + '{suffix}' + (.*) with every keyword passed through re.escape", ok and sk == want_sk, **kw,
-                   expected=want_sk, found=sk)
+            pre, rest = _split_skeleton(sk)
+            want_pre = WANT_PREFIX["bullet" if kind == "StepLine" else "header"][0]
+            want_sk = want_pre + "(§|§)" + suffix + "(.*)"
+            rep.ob(rid, f"match_{kind}: pattern = prefix + (escaped keyword alternation) + '{suffix}' + (.*) with every keyword passed through re.escape",
+                   ok and pre is not None and rest == suffix + "(.*)" and regexnf.same(pre, 0, want_pre), **kw, expected=want_sk, found=sk)
             rep.eq(rid, f"match_{kind}: the search runs on the left-trimmed line", fmt(trimmed, I), fmt(subj, I), **kw)
             flags = [x for x in mt[3]] if len(mt) > 3 else []
             rep.ob(rid, f"match_{kind}: no regex flags alter the anchors", not flags and len(mt[2]) == 2, **kw, expected="no flags", found=[fmt(x[1], I) for x in flags])
@@ -94,7 +122,7 @@ def rule_titles(rep: Report, rid="C19.escape", rid_col="C19.col", rid_roles="C19
             short = lambda t: (fmt(t, I)[:24] + " ... " + fmt(t, I)[-28:]) if t is not None else None
             rep.ob(rid_col, f"match_{kind}: keyword = group 2 (as listed), title = group 3 stripped on both sides", okkt,
                    expected=".group(m, 2), .strip(.group(m, 3))", found=[short(a.get("keyword")), short(a.get("text"))], **kw)
-            want_ind = ("binop", "Add", ("attr", line, "indent"), ("call", "len", (g(1),), ()))
+            want_ind = ("binop", "Add", ("attr", line, N.INDENT), ("call", "len", (g(1),), ()))
             rep.ob(rid_col, f"match_{kind}: column = line indent + length of the prefix (group 1) + 1", a.get("indent") is not None and lin_eq(a["indent"], want_ind), **kw,
                    expected="indent + len(match.group(1))", found=fmt(a.get("indent"), I)[-120:] if a.get("indent") else "default")
         # the verdict depends on the line alone: no matcher state decides whether a well-formed line is recognised
@@ -125,7 +153,7 @@ def rule_table(rep: Report, rid="C19.table") -> None:
             pat = rm[0][0][2][0][1]
             subj = rm[0][0][2][1]
             # the untrimmed line: get_line_text(0)
-            raw_forms = [raw, ("slice", raw, const(0), NONE, NONE), mk_cond(mk_cmp("Gt", const(0), ("attr", line, "indent")), trimmed, ("slice", raw, const(0), NONE, NONE))]
+            raw_forms = [raw, ("slice", raw, const(0), NONE, NONE), mk_cond(mk_cmp("Gt", const(0), ("attr", line, N.INDENT)), trimmed, ("slice", raw, const(0), NONE, NONE))]
             ok = regexnf.same(pat, 0, r"^\s{2,5}\|") and subj in raw_forms
             found = regexnf.describe(pat) + " on " + fmt(subj, I)
         rep.ob(rid, "a table row is recognised only when the untrimmed line starts with two to five blanks and a pipe", ok, **kw,
@@ -202,7 +230,7 @@ def rule_tags(rep: Report, rid="C19.tags") -> None:
                     and not I.loops[lid].get("conds")
                 start_forms = [("call", ".start", (el, const(0)), ()), ("call", ".start", (el,), ())]
                 okd = d is not None and set(d) == {"column", "text"} and d["text"][0] == ("call", ".group", (el, const(1)), ()) and any(
-                    lin_eq(d["column"][0], ("binop", "Add", ("binop", "Add", ("attr", line, "indent"), sf), const(2))) for sf in start_forms)
+                    lin_eq(d["column"][0], ("binop", "Add", ("binop", "Add", ("attr", line, N.INDENT), sf), const(2))) for sf in start_forms)
                 ok = okp and okd
                 found = {"pattern": regexnf.describe(it[2][0][1]) if it and is_const(it[2][0]) else fmt(it, I), "item": fmt(segs[0][2][0][1], I)}
         rep.ob(rid, "tags are the backtick-quoted '@' words of the line, each with the column of its own '@' (indent + match start + 2)", ok, **kw,
